@@ -365,8 +365,10 @@ def e2e_oracle(chk, bu, typ, path, final, rec):
     css_files = U.first_occ([f for i in idx_order for f in bu.declared(i, "css")])
     exp_js_files = sorted({U.media_url(f) for f in js_files})
     exp_css_files = sorted({U.media_url(f) for f in css_files})
-    exp_js = [c.js.strip() for c in order if U.nonempty_str(c.js)]
-    exp_css = [c.css.strip() for c in order if U.nonempty_str(c.css)]
+    # expected inline code: Python's own MRO rule on the generated program (not what Component.js / .css return)
+    inl = {c: {"js": bu.inline(c, "js"), "css": bu.inline(c, "css")} for c in order}
+    exp_js = [inl[c]["js"] for c in order if inl[c]["js"] is not None]
+    exp_css = [inl[c]["css"] for c in order if inl[c]["css"] is not None]
     if typ == "document":
         has_body = prog["shell"] in ("full", "spaced", "nohead")
         has_head = prog["shell"] in ("full", "spaced", "nobody")
@@ -392,10 +394,10 @@ def e2e_oracle(chk, bu, typ, path, final, rec):
         # script / style and every Media URL attribute occurs copies(k) times as a byte string
         for c in order:
             for kind, k, tagname in (("js", kj, "script"), ("css", kc, "style")):
-                body = getattr(c, kind)
-                if U.nonempty_str(body):
-                    x = "<%s>%s</%s>" % (tagname, body.strip(), tagname)
-                    same = sum(1 for c2 in order if U.nonempty_str(getattr(c2, kind)) and getattr(c2, kind).strip() == body.strip())
+                body = inl[c][kind]
+                if body is not None:
+                    x = "<%s>%s</%s>" % (tagname, body, tagname)
+                    same = sum(1 for c2 in order if inl[c2][kind] == body)
                     if final.count(x) != k * same:
                         fail("inline", "byte string %r occurs %d times in the final document, expected %d" % (x, final.count(x), k * same))
         for kind, k, files in (("js", kj, js_files), ("css", kc, css_files)):
@@ -410,17 +412,17 @@ def e2e_oracle(chk, bu, typ, path, final, rec):
         ex = execs[0][1] if execs else {"loadedCssUrls": [], "loadedJsUrls": [], "toLoadCssTags": [], "toLoadJsTags": []}
         if execs and not final.rstrip().endswith("</script>"):
             fail("fragment", "loader declaration is not at the end of the fragment")
-        for kind, key, files, inl in (("js", "toLoadJsTags", exp_js_files, [c for c in order if U.nonempty_str(c.js)]),
-                                      ("css", "toLoadCssTags", exp_css_files, [c for c in order if U.nonempty_str(c.css)])):
+        for kind, key, files, have in (("js", "toLoadJsTags", exp_js_files, [c for c in order if inl[c]["js"] is not None]),
+                                       ("css", "toLoadCssTags", exp_css_files, [c for c in order if inl[c]["css"] is not None])):
             urls = [t[0] for t in ex[key]]
             got_files = sorted(u[1] for u in urls if u and u[0] == "media")
             got_cls = [u[1] for u in urls if u and u[0] == "cache" and u[3] is None and u[2] == kind]
             other = [u for u in urls if not u or (u[0] == "cache" and (u[3] is not None or u[2] != kind))]
             if got_files != files:
                 fail("fragment", "fragment declares Media %s files != files of the rendered classes, once each" % kind, expected=files, got=got_files)
-            if got_cls != [c._class_hash for c in inl]:
+            if got_cls != [c._class_hash for c in have]:
                 fail("fragment", "fragment declares component %s of classes != rendered classes (first-appearance order, once)" % kind,
-                     expected=[c._class_hash for c in inl], got=got_cls)
+                     expected=[c._class_hash for c in have], got=got_cls)
             allowed = {c._class_hash for c in order}
             if any(not u or u[1] not in allowed for u in other):
                 fail("fragment", "fragment declares a URL that belongs to no rendered class", got=other)
@@ -550,6 +552,32 @@ def small_programs():
             yield {"classes": classes, "page": [atoms[i] for i in seq], "shell": "full", "js_ph": 0, "css_ph": 0}
 
 
+def mi_programs():
+    """Multiple inheritance of the INLINE members: class Card(L, B); for each of js / css / template every choice of who defines
+    it (Card itself, the first base, the second base, both bases, nobody), without and with a common root class (diamond)."""
+    def cls(name, js, css, tpl, mjs, base=None, base2=None):
+        return {"name": name, "base": base, "base2": base2, "js": js, "css": css, "mjs": mjs, "mcss": None, "jsdata": False, "cssdata": False,
+                "root": "div", "tpl": tpl}
+    who = ("own", "L", "B", "both", "none")
+    for diamond in (False, True):
+        for wj, wc, wt in itertools.product(who, who, who):
+            if wt == "none" and not diamond:
+                continue            # nobody provides a template: not renderable
+            d = lambda w, x, v: v if w in x else None   # noqa: E731
+            L = cls("Look", d(wj, ("L", "both"), "/*L*/"), d(wc, ("L", "both"), ".l{}"), d(wt, ("L", "both"), [["t", "l"]]), ["s/l.js"])
+            B = cls("Behaviour", d(wj, ("B", "both"), "/*B*/"), d(wc, ("B", "both"), ".b{}"), d(wt, ("B", "both"), [["t", "b"]]), ["s/b.js", "s/l.js"])
+            card = cls("Card", d(wj, ("own",), "/*card*/"), d(wc, ("own",), ".card{}"), d(wt, ("own",), []), [])
+            if diamond:
+                root = cls("Root", "/*root*/", ".root{}", [["t", "r"]], ["s/r.js"])
+                L["base"], B["base"] = 0, 0
+                card["base"], card["base2"] = 1, 2
+                classes, k = [root, L, B, card], 3
+            else:
+                card["base"], card["base2"] = 0, 1
+                classes, k = [L, B, card], 2
+            yield {"classes": classes, "page": [["c", k, None], ["c", k, None]], "shell": "full", "js_ph": 0, "css_ph": 0}
+
+
 def load_corpus():
     out = []
     if os.path.isdir(CORPUS):
@@ -620,6 +648,10 @@ def run(tier, seed):
         L = len(prog["page"])
         run_prog(chk, prog, ["document", "fragment"], [U.PATHS[0], U.PATHS[2]], terms, "small",
                  coq=(L <= 1 or (L == 2 and (thorough or n % 4 == 0))))
+    for n2, prog in enumerate(mi_programs()):
+        run_prog(chk, prog, ["document", "fragment"], U.PATHS if n2 % 3 == 0 else [U.PATHS[0], U.PATHS[2]], terms, "multi-inherit",
+                 coq=(thorough or n2 % 5 == 0))
+    chk.extra["programs_multiple_inheritance"] = n2 + 1
     lap("e2e-small-render")
     nrand = 6000 if thorough else 900
     for k in range(nrand):
